@@ -24,13 +24,23 @@ def generate(tier, seed):
     L = shapes.LEAVES
     src = ["use crate::terms::*;\nuse crate::c12::*;\nuse crate::vk;\n"]
     hs = []
-    for a, b in c11.pair_list(tier):
-        for kind, f in (("pair", "agrees"), ("borrowed", "agrees_borrowed")):
-            n = "c12_%s__%s__%s" % (kind, a, b)
-            body = ("    let (a, ra) = %s;\n    let (b, rb) = %s;\n    %s(&a, &ra, &b, &rb);\n    %s(&b, &rb, &a, &ra);\n"
-                    "    vk::leak(a); vk::leak(b); vk::leak(ra); vk::leak(rb);" % (L[a][0], L[b][0], f, f))
-            src.append(c11.fn(n, body))
-            hs.append(Harness(n, "%s cmp == Erlang term order (both argument orders) on shapes %s x %s" % (
-                "OwnedTerm" if kind == "pair" else "BorrowedTerm", a, b),
-                unwind=c11.UNW, unwindset=c11.UWS, recursion=c11.rec_for([a, b]), cap_s=c11.CAP, cuts=c11.cuts_for([a, b])))
+    for a, b in shapes.pairs_same_family():
+        n = "c12_pair__%s__%s" % (a, b)
+        body = ("    let (a, ra) = %s;\n    let (b, rb) = %s;\n    agrees(&a, &ra, &b, &rb);\n    agrees(&b, &rb, &a, &ra);\n"
+                "    agrees_borrowed(&a, &ra, &b, &rb);\n    agrees_borrowed(&b, &rb, &a, &ra);\n"
+                "    vk::leak(a); vk::leak(b); vk::leak(ra); vk::leak(rb);" % (L[a][0], L[b][0]))
+        src.append(c11.fn(n, body))
+        hs.append(Harness(n, "OwnedTerm::cmp and BorrowedTerm::cmp == Erlang term order (both argument orders) on shapes %s x %s" % (a, b),
+                          unwind=c11.UNW, unwindset=c11.UWS, recursion=c11.rec_for([a, b]), cap_s=c11.CAP, cuts=c11.cuts_for([a, b])))
+    for a, bs in c11.cross_groups().items():
+        n = "c12_cross__%s" % a
+        body = "    let (a, ra) = %s;\n" % L[a][0]
+        for k, b in enumerate(bs):
+            body += ("    let (b%d, r%d) = %s;\n    agrees(&a, &ra, &b%d, &r%d);\n    agrees(&b%d, &r%d, &a, &ra);\n"
+                     "    agrees_borrowed(&a, &ra, &b%d, &r%d);\n    vk::leak(b%d); vk::leak(r%d);\n" % (k, k, L[b][0], k, k, k, k, k, k, k, k))
+        body += "    vk::leak(a); vk::leak(ra);"
+        src.append(c11.fn(n, body))
+        hs.append(Harness(n, "type-rank order (number < atom < reference < fun < port < pid < tuple < map < nil < list < bit-string) for %s "
+                             "against one representative of every other rank: %s" % (a, bs),
+                          unwind=c11.UNW, unwindset=c11.UWS, recursion=c11.rec_for([a] + bs), cap_s=c11.CAP, cuts=c11.cuts_for([a] + bs)))
     return "\n".join(src), hs
